@@ -1,0 +1,17 @@
+//go:build verif
+
+package goja
+
+// White-box accessors for the C10 check (promise job queue). Add-only; compiled only with -tags verif.
+
+// VerifC10JobQueueLen returns the number of promise jobs currently queued on the runtime
+// (Runtime.jobQueue, runtime.go). The C10 model proves it must be 0 whenever an outermost call has
+// returned (normally: drained by leave(); after an interrupt: dropped by leaveAbrupt()).
+func (r *Runtime) VerifC10JobQueueLen() int {
+	return len(r.jobQueue)
+}
+
+// VerifC10CallDepth returns len(vm.callStack): 0 means control is outside the runtime.
+func (r *Runtime) VerifC10CallDepth() int {
+	return len(r.vm.callStack)
+}
